@@ -184,6 +184,13 @@ impl C10 {
         let mut a = self.boot.clone();
         let mut b = self.boot.clone();
         let mut log: Vec<String> = vec![];
+        if rng.chance(1, 3) {
+            // with reverse recording on, the undo log must not keep anything of the rejected source either
+            a.set_recording_enabled(true);
+            b.set_recording_enabled(true);
+            log.push("recording on".into());
+            obs.count("cases_with_recording");
+        }
         // ---- history (both)
         for k in 0..rng.below(6) {
             let src = history_source(&mut rng, k);
@@ -254,7 +261,7 @@ impl C10 {
         }
         let after_full = full_state(&mut a, false);
         for (x, y) in before_full.iter().zip(after_full.iter()) {
-            if x.0 == "bookkeeping" || x.0 == "reverse-log" {
+            if x.0 == "bookkeeping" {
                 continue; // source counter and instruction meter legitimately move
             }
             if x.1 != y.1 {
